@@ -420,7 +420,8 @@ def parseRRType (s : String) : Option RRType :=
   else if s = "srv" then some .srv else if s = "mx" then some .mx else if s = "cname" then some .cname
   else if s = "aaaa" then some .aaaa else if s = "a" then some .a else none
 
-def handle : List String → String
+/-- one response op -/
+def handleOne : List String → String
   | codec :: domain :: rr :: oracle :: fields =>
     match codec.toList, parseRRType rr, parseResp fields with
     | [c], some t, some r =>
@@ -436,5 +437,29 @@ def handle : List String → String
         | .ok a u r' => s!"ok {a} {u} {render r'}"
     | _, _, _ => "bad-op"
   | _ => "bad-op"
+
+/-! ### several responses at the same moment
+
+The server forms every answer on the goroutine of its query, through the same downstream codec singletons,
+`wrap.go` and serializer values; the model of the response path is a function of the one response, so a
+batch processed concurrently is the list of the single results (`C10_batch_pointwise`).  The `par` op of the
+`dnsresp` component drives the real code that way and compares. -/
+
+/-- split an op list at the separator token `;` -/
+def splitOps : List String → List (List String)
+  | [] => [[]]
+  | t :: rest =>
+    match splitOps rest with
+    | [] => [[t]]          -- unreachable: splitOps never returns []
+    | cur :: more => if t == ";" then [] :: cur :: more else (t :: cur) :: more
+
+def handleBatch (ops : List (List String)) : List String := ops.map handleOne
+
+def handle : List String → String
+  | "par" :: g :: iters :: rest =>
+    let ops := splitOps rest
+    if g.toNat?.isNone || iters.toNat?.isNone || ops.any (fun o => o.isEmpty || o.head? == some "par") then "bad-op"
+    else String.intercalate " ; " (handleBatch ops)
+  | ts => handleOne ts
 
 end SA.DnsResp
